@@ -123,6 +123,24 @@ func ruleTreeAlias(c *Ctx) {
 					break
 				}
 			}
+			// SetBacking on a leaf view overwrites the leaf IN PLACE ((*RootView).SetBacking does `*r = ...`): the parent
+			// is not rebound, cached hashes above it go stale and copies that share the leaf change content. Only
+			// composite views (which rebind through their hook) may be re-backed; a value that came out of a tree as the
+			// View interface, or a *RootView, may not.
+			if f := calleeFunc(info, call); f != nil && f.Name() == "SetBacking" && bad == nil {
+				if sel, ok := call.Fun.(*ast.SelectorExpr); ok {
+					rt := info.TypeOf(sel.X)
+					_, isIface := rt.Underlying().(*types.Interface)
+					isRoot := false
+					if nt := namedOf(rt); nt != nil && nt.Obj().Name() == "RootView" {
+						isRoot = true
+					}
+					if isIface || isRoot {
+						c.bad(key, call.Pos(), "%s calls SetBacking on %s (static type %s): if this is a bytes32 leaf the tree node is overwritten in place, no ancestor is rebound, cached roots above it go stale and earlier copies of the state see the new content under the old root (build a fresh view and Set it on the parent instead)", funcName(fd), types.ExprString(sel.X), rt.String())
+						return true
+					}
+				}
+			}
 			if bad != nil {
 				c.bad(key, badArg.Pos(), "%s hands %s to the tree: the tree leaf is the caller's own struct field, a later write to the struct changes the tree under its cached hashes (copy into a local first)", funcName(fd), types.ExprString(bad))
 			} else {
